@@ -356,7 +356,8 @@ def _validate_batch(trace, module, cfg, workers):
             return a + b, s1 + s2, t1 + t2
         if 'Overflow when computing' in r.output:
             return [{'id': trace[0]['id'], 'ok': None, 'why': 'overflow in 32-bit TLC arithmetic (unit skipped)'}], 0, 0
-        raise tlc.TLCError('trace validation failed:\n' + '\n'.join(r.output.splitlines()[-30:]))
+        errs = [l for l in r.output.splitlines() if 'Error' in l or 'rror:' in l or 'Attempted' in l or 'was evaluating' in l]
+        raise tlc.TLCError('trace validation failed:\n' + '\n'.join(errs[:12]) + '\n...\n' + '\n'.join(r.output.splitlines()[-30:]))
     byid = {}
     for line in r.lines:
         v = json.loads(line)
